@@ -8,11 +8,12 @@
 import Proofs.FitCoherent
 import Proofs.ReplaceValid
 import Proofs.PlacementValid
+import Proofs.OpGuardSetBlock
 namespace PM
 
 /-! ### fillers are valid -/
 
-theorem canonicalMarks_nil (S : Schema) : canonicalMarks S [] = true := by
+theorem canonicalMarks_nil_fit (S : Schema) : canonicalMarks S [] = true := by
   simp [canonicalMarks]
 
 theorem createAndFillO_valid (S : Schema) (hdet : DetS S) (hleaf : PM.FromDom.LeafOk S) :
@@ -45,11 +46,11 @@ theorem createAndFillO_valid (S : Schema) (hdet : DetS S) (hleaf : PM.FromDom.Le
           split
           · rename_i hl
             refine ⟨?_, rfl, fun s m h => by cases h⟩
-            rw [checkNode_leaf, canonicalMarks_nil]
+            rw [checkNode_leaf, canonicalMarks_nil_fit]
             simp only [Bool.true_and, Schema.validContent, List.all_nil, Bool.and_true]
             exact hleaf ty hl
           · refine ⟨?_, rfl, fun s m h => by cases h⟩
-            rw [checkNode_elem, canonicalMarks_nil]
+            rw [checkNode_elem, canonicalMarks_nil_fit]
             simp only [Bool.and_true, Bool.and_eq_true, Schema.validContent, htypes, hacc, true_and,
               List.all_eq_true]
             refine ⟨?_, (checkKids_iff S kids).2 (fun k hk => (hkv k hk).1)⟩
@@ -202,5 +203,469 @@ theorem normalizeOpen_openValid (S : Schema) : ∀ (n : Nat) (c : List Node) (os
         | leaf t a m => simp [openValid] at h
       · exact h
     · exact h
+
+/-! ### opening a node with valid content at the open end: `openValid a b → openValid a (b + 1)` -/
+
+theorem rightOpenValid_snoc (S : Schema) (b : Nat) : ∀ (init : List Node) (t : TypeId) (a : Attrs) (m : Marks)
+    (k : List Node), rightOpenValid S (b + 1) (init ++ [.elem t a m k]) =
+      (S.checkKids init && (canonicalMarks S m && rightOpenValid S b k))
+  | [], t, a, m, k => by simp [rightOpenValid]
+  | [n], t, a, m, k => by
+    simp only [List.cons_append, List.nil_append, rightOpenValid, checkKids_cons, checkKids_nil, Bool.and_true]
+  | n :: y :: ys, t, a, m, k => by
+    have ih := rightOpenValid_snoc S b (y :: ys) t a m k
+    simp only [List.cons_append] at ih ⊢
+    simp only [rightOpenValid, checkKids_cons, ih, Bool.and_assoc]
+
+theorem fappend_singleton_elem (frag : List Node) (t : TypeId) (a : Attrs) (m : Marks) (k : List Node) :
+    fappend frag [.elem t a m k] = frag ++ [.elem t a m k] := by
+  unfold fappend
+  simp only
+  split
+  · rename_i he
+    have : frag = [] := by simpa using he
+    subst this; rfl
+  · rw [addNode_elem]; simp
+
+theorem addToFragment_cons_cons (x y : Node) (ys c r : List Node) (d : Nat)
+    (h : addToFragment (x :: y :: ys) (d + 1) c = .ok r) :
+    ∃ r', addToFragment (y :: ys) (d + 1) c = .ok r' ∧ r = x :: r' := by
+  unfold addToFragment at h ⊢
+  rw [List.getLast?_cons_cons] at h
+  split at h
+  · rename_i t a m kids hl
+    obtain ⟨inner, hi, h⟩ := FM.bind_ok h
+    have := pure_ok h
+    subst this
+    refine ⟨(y :: ys).dropLast ++ [.elem t a m inner], ?_, by rw [List.dropLast_cons_cons]; rfl⟩
+    simp only [hl, FM.bind_eq hi]
+    rfl
+  · simp [throw, throwThe, MonadExceptOf.throw] at h
+
+theorem rightOpenValid_open (S : Schema) (ty : TypeId) (at_ : Attrs) (content : List Node)
+    (hc : S.checkKids content = true) : ∀ (b : Nat) (frag r : List Node),
+    addToFragment frag b [.elem ty at_ [] content] = .ok r → rightOpenValid S b frag = true →
+    rightOpenValid S (b + 1) r = true
+  | 0, frag, r, h, hv => by
+    have := pure_ok h
+    subst this
+    rw [fappend_singleton_elem, rightOpenValid_snoc]
+    simp only [rightOpenValid] at hv ⊢
+    simp [hv, canonicalMarks_nil_fit, hc]
+  | b + 1, frag, r, h, hv => by
+    unfold addToFragment at h
+    split at h
+    · rename_i t a m kids hl
+      obtain ⟨inner, hi, h⟩ := FM.bind_ok h
+      have := pure_ok h
+      subst this
+      obtain ⟨init, rfl⟩ := List.getLast?_eq_some_iff.mp hl
+      rw [rightOpenValid_snoc] at hv
+      simp only [Bool.and_eq_true] at hv
+      have ih := rightOpenValid_open S ty at_ content hc b kids inner hi hv.2.2
+      simp only [List.dropLast_concat]
+      rw [rightOpenValid_snoc]
+      simp [hv.1, hv.2.1, ih]
+    · simp [throw, throwThe, MonadExceptOf.throw] at h
+
+/-- **re-opening a node at the open end** (`open_frontier_node` with valid filler content) keeps payload
+    validity, one level deeper on the right -/
+theorem openValid_open (S : Schema) (ty : TypeId) (at_ : Attrs) (content : List Node)
+    (hc : S.checkKids content = true) : ∀ (b a : Nat) (frag r : List Node),
+    addToFragment frag b [.elem ty at_ [] content] = .ok r → openValid S a b frag = true →
+    openValid S a (b + 1) r = true
+  | b, 0, frag, r, h, hv => by
+    simp only [openValid] at hv ⊢
+    exact rightOpenValid_open S ty at_ content hc b frag r h hv
+  | 0, a + 1, frag, r, h, hv => by
+    have := pure_ok h
+    subst this
+    rw [fappend_singleton_elem]
+    simp only [openValid] at hv
+    cases frag with
+    | nil => simp [leftOpenValid] at hv
+    | cons n rest =>
+      cases n with
+      | elem t a0 m k =>
+        simp only [leftOpenValid, Bool.and_eq_true] at hv
+        have hr : rightOpenValid S 1 (rest ++ [.elem ty at_ [] content]) = true := by
+          rw [rightOpenValid_snoc]
+          simp [hv.2, canonicalMarks_nil_fit, rightOpenValid, hc]
+        cases rest with
+        | nil =>
+          simp only [List.nil_append] at hr
+          simp only [List.cons_append, List.nil_append, openValid, hv.1.1, hv.1.2, hr, Bool.and_self]
+        | cons y ys =>
+          simp only [List.cons_append] at hr ⊢
+          simp only [openValid, hv.1.1, hv.1.2, hr, Bool.and_self]
+      | text s m => simp [leftOpenValid] at hv
+      | leaf t a0 m => simp [leftOpenValid] at hv
+  | b + 1, a + 1, frag, r, h, hv => by
+    cases frag with
+    | nil => simp [openValid] at hv
+    | cons n rest =>
+      cases n with
+      | elem t a0 m k =>
+        cases rest with
+        | nil =>
+          unfold addToFragment at h
+          simp only [List.getLast?_singleton] at h
+          obtain ⟨inner, hi, h⟩ := FM.bind_ok h
+          have := pure_ok h
+          subst this
+          simp only [openValid, Bool.and_eq_true] at hv
+          have ih := openValid_open S ty at_ content hc b a k inner hi hv.2
+          simp [openValid, hv.1, ih]
+        | cons y ys =>
+          obtain ⟨r', hr', rfl⟩ := addToFragment_cons_cons _ y ys _ r b h
+          simp only [openValid, Bool.and_eq_true] at hv
+          have ih := rightOpenValid_open S ty at_ content hc (b + 1) (y :: ys) r' hr' hv.2
+          cases r' with
+          | nil => simp [rightOpenValid] at ih
+          | cons n2 rest2 => simp [openValid, hv.1.1, hv.1.2, ih]
+      | text s m => simp [openValid] at hv
+      | leaf t a0 m => simp [openValid] at hv
+
+/-! ### `close` for a deletion: closing, the filling of the close level, re-opening -/
+
+theorem contentAfterFitsAt_valid (S : Schema) (hdet : DetS S) (hleaf : PM.FromDom.LeafOk S) (node : Node)
+    (index : Nat) (ty : TypeId) (st : Option Nat) (f : List Node)
+    (h : contentAfterFitsAt S node index ty st = .ok (some f)) : S.checkKids f = true := by
+  unfold contentAfterFitsAt at h
+  split at h
+  · simp [pure, Except.pure] at h
+  · obtain ⟨q, _, h⟩ := FM.bind_ok h
+    obtain ⟨fit, hfit, h⟩ := FM.bind_ok h
+    cases fit with
+    | none => simp [pure, Except.pure] at h
+    | some g =>
+      simp only at h
+      split at h
+      · simp [pure, Except.pure] at h
+      · have := pure_ok h
+        simp only [Option.some.injEq] at this
+        subst this
+        exact fillOpt_valid S hdet hleaf _ _ _ _ _ hfit
+
+theorem findCloseLevelLoop_fit_valid (S : Schema) (hdet : DetS S) (hleaf : PM.FromDom.LeafOk S) (doc : Node)
+    (rt : RPos) (fr : List FItem) : ∀ (n : Nat) (lv : CloseLevel),
+    findCloseLevelLoop S doc rt fr n = .ok (some lv) → S.checkKids lv.fit = true
+  | 0, lv, h => by simp [findCloseLevelLoop, pure, Except.pure] at h
+  | i + 1, lv, h => by
+    unfold findCloseLevelLoop at h
+    obtain ⟨it, _, h⟩ := FM.bind_ok h
+    simp only at h
+    obtain ⟨r, hr, h⟩ := FM.bind_ok h
+    cases r with
+    | none => exact findCloseLevelLoop_fit_valid S hdet hleaf doc rt fr i lv h
+    | some fit =>
+      simp only at h
+      obtain ⟨b, _, h⟩ := FM.bind_ok h
+      cases b with
+      | false => exact findCloseLevelLoop_fit_valid S hdet hleaf doc rt fr i lv h
+      | true =>
+        simp only [if_true] at h
+        obtain ⟨mv, _, h⟩ := FM.bind_ok h
+        have := pure_ok h
+        simp only [Option.some.injEq] at this
+        subst this
+        unfold contentAfterFits at hr
+        by_cases hd : rt.depth < i
+        · simp [hd, throw, throwThe, MonadExceptOf.throw] at hr
+        · rw [if_neg hd] at hr
+          exact contentAfterFitsAt_valid S hdet hleaf _ _ _ _ fit hr
+
+/-- `n` times `close_frontier_node` on the chain -/
+theorem closeMany_pureV (S : Schema) (hdet : DetS S) (hleaf : PM.FromDom.LeafOk S) : ∀ (n : Nat) (fr : List FItem)
+    (placed : List Node) (b x : Nat) (G : List Node), fr.length = b + 1 → n ≤ b → PureV S b placed G →
+    leftOpenValid S x G = true → ∀ (r : List FItem × List Node), closeMany S n fr placed = .ok r →
+    r.1.length = b - n + 1 ∧ ∃ G', PureV S (b - n) r.2 G' ∧ leftOpenValid S (x + n) G' = true
+  | 0, fr, placed, b, x, G, hl, _, hp, hG, r, h => by
+    have := pure_ok h
+    subst this
+    exact ⟨by simpa using hl, G, by simpa using hp, by simpa using hG⟩
+  | n + 1, fr, placed, b, x, G, hl, hn, hp, hG, r, h => by
+    unfold closeMany at h
+    obtain ⟨y, hy, h⟩ := FM.bind_ok h
+    obtain ⟨b', rfl⟩ : ∃ b', b = b' + 1 := ⟨b - 1, by omega⟩
+    obtain ⟨hl1, G1, hp1, hG1⟩ := closeFrontierNode_pureV S hdet hleaf fr placed b' x G (by omega) hp hG y hy
+    obtain ⟨hl2, G2, hp2, hG2⟩ := closeMany_pureV S hdet hleaf n y.1 y.2 b' (x + 1) G1 hl1 (by omega) hp1 hG1 r h
+    refine ⟨by omega, G2, ?_, ?_⟩
+    · rw [show b' + 1 - (n + 1) = b' - n by omega]; exact hp2
+    · rw [show x + (n + 1) = x + 1 + n by omega]; exact hG2
+
+/-- the re-opening loop of `close`: every re-opened node carries valid fillers -/
+theorem reopen_pureV (S : Schema) (hdet : DetS S) (hleaf : PM.FromDom.LeafOk S) {doc : Node} {p : Nat} {mv : RPos}
+    (hmv : doc.resolve p = some mv) (hattrs : S.nodeAttrsOK doc = true) : ∀ (n d : Nat) (fr : List FItem)
+    (placed : List Node) (bb j x : Nat) (G : List Node), fr.length = bb + j + 1 → PureV S bb placed G →
+    openValid S x j G = true → 1 ≤ d → (∀ k, d ≤ k → k < d + n → k ≤ mv.depth) →
+    ∀ (r : List FItem × List Node), reopen S mv n d fr placed = .ok r →
+    ∃ G', PureV S bb r.2 G' ∧ openValid S x (j + n) G' = true
+  | 0, d, fr, placed, bb, j, x, G, _, hp, hG, _, _, r, h => by
+    have := pure_ok h
+    subst this
+    exact ⟨G, hp, by simpa using hG⟩
+  | n + 1, d, fr, placed, bb, j, x, G, hl, hp, hG, hd, hrange, r, h => by
+    have R := resolve_resolved hmv
+    have hdle : d ≤ mv.depth := hrange d (Nat.le_refl _) (by omega)
+    obtain ⟨t, a, m, ks, hn⟩ := resolve_node_isElem hmv d hd hdle
+    have hok := R.node_attrsOK hattrs d hdle
+    rw [hn] at hok
+    obtain ⟨h1, h2, a', h3⟩ := nodeAttrsOK_elem hok
+    unfold reopen at h
+    simp only [hn, Schema.tyOf, Node.tyOr, Node.kids, Node.attrs] at h
+    obtain ⟨add, hadd, h⟩ := FM.bind_ok h
+    obtain ⟨y, hy, h⟩ := FM.bind_ok h
+    have hcontent : S.checkKids (add.getD []) = true := by
+      cases add with
+      | none => simp
+      | some ns => exact fillOpt_valid S hdet hleaf _ _ _ _ ns hadd
+    -- the node that is opened
+    unfold openFrontierNode at hy
+    obtain ⟨top, _, hy⟩ := FM.bind_ok hy
+    obtain ⟨q, _, hy⟩ := FM.bind_ok hy
+    obtain ⟨node, hnode, hy⟩ := FM.bind_ok hy
+    obtain ⟨p', hp', hy⟩ := FM.bind_ok hy
+    have := pure_ok hy
+    subst this
+    have hnode' : node = .elem t a' [] (add.getD []) := by
+      rw [createNodeO_ok S t a (add.getD []) h1 a' h3] at hnode
+      simp only [Except.ok.injEq] at hnode
+      rw [← hnode]
+      unfold Schema.mkNodeO; simp [h2]
+    subst hnode'
+    rw [show fr.length - 1 = bb + j by omega] at hp'
+    obtain ⟨G1, hG1, hp1⟩ := addToFragment_pure S bb j placed G _ p' hp hp'
+    have hv1 := openValid_open S t a' (add.getD []) hcontent j x G G1 hG1 hG
+    obtain ⟨G2, hp2, hv2⟩ := reopen_pureV S hdet hleaf hmv hattrs n (d + 1) _ p' bb (j + 1) x G1
+      (by simp; omega) hp1 hv1 (by omega) (fun k h1 h2 => hrange k (by omega) (by omega)) r h
+    exact ⟨G2, hp2, by rw [show j + (n + 1) = j + 1 + n by omega]; exact hv2⟩
+
+/-- lowering the open end along the chain: fewer levels open on the right is still valid when the start
+    spine covers them -/
+theorem PureV_lower (S : Schema) : ∀ (d x b : Nat) (c G : List Node), PureV S d c G →
+    leftOpenValid S x G = true → b ≤ d → openValid S (d + x) b c = true
+  | 0, x, b, c, G, hp, hG, hb => by
+    cases hp
+    have : b = 0 := by omega
+    subst this
+    simpa [openValid_zero_right] using hG
+  | d + 1, x, b, c, G, ⟨t, a, m, k, hc, hm, hk⟩, hG, hb => by
+    subst hc
+    rw [show d + 1 + x = (d + x) + 1 by omega]
+    cases b with
+    | zero =>
+      have ih := PureV_lower S d x 0 k G hk hG (Nat.zero_le _)
+      rw [openValid_zero_right] at ih
+      simp [openValid, leftOpenValid, hm, ih]
+    | succ b =>
+      have ih := PureV_lower S d x b k G hk hG (by omega)
+      simp [openValid, hm, ih]
+
+/-- the chain `Fitter.__init__` builds, with the (canonical) marks of the document's nodes -/
+theorem nestPlaced_pureV (S : Schema) (rf : RPos) : ∀ (l : List Nat),
+    (∀ i ∈ l, ∃ t a m k, rf.node (i + 1) = .elem t a m k ∧ canonicalMarks S m = true) →
+    PureV S l.length (nestPlaced rf l) []
+  | [], _ => rfl
+  | i :: l, h => by
+    obtain ⟨t, a, m, k, hn, hm⟩ := h i (by simp)
+    have ih := nestPlaced_pureV S rf l (fun j hj => h j (by simp [hj]))
+    simp only [nestPlaced, List.foldr_cons, hn, Node.withKids, List.length_cons] at ih ⊢
+    exact ⟨t, a, m, _, rfl, hm, ih⟩
+
+/-- **`close` on the untouched chain** (what `Fitter.fit` does for a deletion): the final `placed` is a valid
+    payload, open `depth(from)` levels at the start and `depth(close target)` levels at the end -/
+theorem closeFit_valid (S : Schema) (hdet : DetS S) (hleaf : PM.FromDom.LeafOk S) {doc : Node} {t : Nat} {rt : RPos}
+    (ht : doc.resolve t = some rt) (hattrs : S.nodeAttrsOK doc = true) (fr : List FItem) (placed : List Node)
+    (D : Nat) (hl : fr.length = D + 1) (hp : PureV S D placed []) (mv : RPos) (p : List Node)
+    (h : closeFit S doc rt fr placed = .ok (some (mv, p))) : openValid S D mv.depth p = true := by
+  unfold closeFit at h
+  obtain ⟨lvo, hlv, h⟩ := FM.bind_ok h
+  cases lvo with
+  | none => simp [pure, Except.pure] at h
+  | some lv =>
+    simp only at h
+    have hdep : lv.depth < min (fr.length - 1) rt.depth + 1 := findCloseLevelLoop_depth S doc rt fr _ lv hlv
+    have hld : lv.depth ≤ D := by omega
+    obtain ⟨c1, hc1, h⟩ := FM.bind_ok h
+    obtain ⟨hl1, G1, hp1, hG1⟩ := closeMany_pureV S hdet hleaf (fr.length - 1 - lv.depth) fr placed D 0 [] hl
+      (by omega) hp (by simp [leftOpenValid]) c1 hc1
+    rw [show D - (fr.length - 1 - lv.depth) = lv.depth by omega] at hl1 hp1
+    rw [show 0 + (fr.length - 1 - lv.depth) = D - lv.depth by omega] at hG1
+    obtain ⟨pl, hpl, h⟩ := FM.bind_ok h
+    have hfit := findCloseLevelLoop_fit_valid S hdet hleaf doc rt fr _ lv hlv
+    have hpl' : ∃ G2, PureV S lv.depth pl G2 ∧ leftOpenValid S (D - lv.depth) G2 = true := by
+      split at hpl
+      · obtain ⟨G2, hG2, hp2⟩ := addToFragment_pure S lv.depth 0 c1.2 G1 lv.fit pl hp1 (by simpa using hpl)
+        have e : G2 = fappend G1 lv.fit := (pure_ok hG2).symm
+        subst e
+        exact ⟨_, hp2, leftOpenValid_fappend S _ G1 lv.fit hG1 hfit⟩
+      · have := pure_ok hpl
+        subst this
+        exact ⟨G1, hp1, hG1⟩
+    obtain ⟨G2, hp2, hG2⟩ := hpl'
+    obtain ⟨c2, hc2, h⟩ := FM.bind_ok h
+    have := pure_ok h
+    simp only [Option.some.injEq, Prod.mk.injEq] at this
+    obtain ⟨e1, e2⟩ := this
+    subst e1; subst e2
+    have hmv : ∃ pm, doc.resolve pm = some lv.move := by
+      rcases findCloseLevelLoop_move S doc rt fr _ lv hlv with hm | ⟨i, a, _, _, _, hres⟩
+      · exact ⟨t, by rw [hm]; exact ht⟩
+      · exact ⟨a, hres⟩
+    obtain ⟨pm, hpm⟩ := hmv
+    obtain ⟨G3, hp3, hG3⟩ := reopen_pureV S hdet hleaf hpm hattrs (lv.move.depth - lv.depth) (lv.depth + 1) c1.1 pl
+      lv.depth 0 (D - lv.depth) G2 (by omega) hp2 (by rw [openValid_zero_right]; exact hG2) (by omega)
+      (fun k h1 h2 => by omega) c2 hc2
+    by_cases hge : lv.depth ≤ lv.move.depth
+    · have := PureV_openValid S lv.depth (D - lv.depth) (0 + (lv.move.depth - lv.depth)) c2.2 G3 hp3 hG3
+      rw [show lv.depth + (D - lv.depth) = D by omega,
+        show lv.depth + (0 + (lv.move.depth - lv.depth)) = lv.move.depth by omega] at this
+      exact this
+    · rw [show lv.move.depth - lv.depth = 0 by omega] at hG3
+      simp only [Nat.add_zero] at hG3
+      rw [openValid_zero_right] at hG3
+      have := PureV_lower S lv.depth (D - lv.depth) lv.move.depth c2.2 G3 hp3 hG3 (by omega)
+      rw [show lv.depth + (D - lv.depth) = D by omega] at this
+      exact this
+
+theorem fitInit_pureV (S : Schema) {doc : Node} {f : Nat} {rf : RPos} (hf : doc.resolve f = some rf)
+    (hv : S.checkNode doc = true) (sl : Slice) (st0 : FitState) (h : fitInit S rf sl = .ok st0) :
+    PureV S rf.depth st0.placed [] := by
+  have R := resolve_resolved hf
+  unfold fitInit at h
+  obtain ⟨fr, _, h⟩ := FM.bind_ok h
+  have := pure_ok h
+  subst this
+  have := nestPlaced_pureV S rf (List.range rf.depth) (by
+    intro i hi
+    simp only [List.mem_range] at hi
+    obtain ⟨t, a, m, k, hn⟩ := resolve_node_isElem hf (i + 1) (by omega) (by omega)
+    have hc := R.node_check hv (i + 1) (by omega)
+    rw [hn, checkNode_elem] at hc
+    simp only [Bool.and_eq_true] at hc
+    exact ⟨t, a, m, k, hn, hc.1.2⟩)
+  simpa [nestPlaced] using this
+
+/-- the slice of the emitted step, from the final `placed` -/
+theorem fitEmit_valid (S : Schema) (rf rt : RPos) (mi : Option Nat) (ps : Int) (to_ : RPos) (placed : List Node)
+    (st : Step) (h : fitEmit rf rt mi ps to_ placed = .ok (some st))
+    (hv : openValid S rf.depth to_.depth placed = true) :
+    ∃ sl', st.sliceOf = some sl' ∧ openValid S sl'.openStart sl'.openEnd sl'.content = true := by
+  unfold fitEmit at h
+  simp only at h
+  have hn := normalizeOpen_openValid S (rf.depth + 1) placed rf.depth to_.depth hv
+  cases mi with
+  | none =>
+    simp only at h
+    split at h
+    · have := pure_ok h
+      simp only [Option.some.injEq] at this
+      subst this
+      exact ⟨_, rfl, hn⟩
+    · simp [pure, Except.pure] at h
+  | some p =>
+    simp only at h
+    split at h
+    · simp [throw, throwThe, MonadExceptOf.throw] at h
+    · have := pure_ok h
+      simp only [Option.some.injEq] at this
+      subst this
+      exact ⟨_, rfl, hn⟩
+
+/-- **the payload of every step `replace_step` emits for a deletion is valid** -/
+theorem replaceStep_empty_valid (S : Schema) (hdet : DetS S) (hleaf : PM.FromDom.LeafOk S) (doc : Node) (f t : Nat)
+    (hv : S.checkNode doc = true) (hattrs : S.nodeAttrsOK doc = true) (st : Step)
+    (h : replaceStep S doc f t Slice.empty = .ok (some st)) :
+    ∃ sl', st.sliceOf = some sl' ∧ openValid S sl'.openStart sl'.openEnd sl'.content = true := by
+  unfold replaceStep at h
+  split at h
+  · simp [pure, Except.pure] at h
+  · split at h
+    · rename_i rf rt hf ht
+      split at h
+      · simp [throw, throwThe, MonadExceptOf.throw] at h
+      · have := pure_ok h
+        simp only [Option.some.injEq] at this
+        subst this
+        exact ⟨Slice.empty, rfl, by simp [Slice.empty, openValid, rightOpenValid]⟩
+      · obtain ⟨st0, h0, hu, _, hlen, _, _⟩ := fitInit_ok S hf hv Slice.empty
+        have hp0 := fitInit_pureV S hf hv Slice.empty st0 h0
+        unfold fitterFit at h
+        rw [FM.bind_eq h0, FM.bind_eq (fitLoop_empty S _ st0 hu)] at h
+        obtain ⟨mi, _, h⟩ := FM.bind_ok h
+        simp only at h
+        obtain ⟨target, htg, h⟩ := FM.bind_ok h
+        obtain ⟨c, hc, h⟩ := FM.bind_ok h
+        cases c with
+        | none => simp [pure, Except.pure] at h
+        | some c =>
+          simp only at h
+          have hpt : ∃ pt, doc.resolve pt = some target := by
+            cases mi with
+            | none =>
+              have := pure_ok htg
+              subst this
+              exact ⟨t, ht⟩
+            | some p => exact ⟨p, liftRaise_ok htg⟩
+          obtain ⟨pt, hpt⟩ := hpt
+          have hcv := closeFit_valid S hdet hleaf hpt hattrs st0.frontier st0.placed rf.depth hlen hp0 c.1 c.2 hc
+          exact fitEmit_valid S rf rt mi _ c.1 c.2 st h hcv
+    · simp [throw, throwThe, MonadExceptOf.throw] at h
+
+/-! ### groundwork for placed slices -/
+
+/-- **a node the Fitter opened is accepted when `close_frontier_node` closes it**: at a coherent level above
+    the ghost level the match is the state after all children, and `fill_before(…, True)` leads from
+    there to a valid end — the children followed by the fillers are accepted by the node's type -/
+theorem levelOK_close_accepts (S : Schema) (hdet : DetS S) (hts : TextStableP S) (D g : Nat) (base : List FItem)
+    (j : Nat) (it : FItem) (F a : List Node) (q : Nat) (hg : g < j) (hl : LevelOK S D g base j it F)
+    (hq : it.st = some q) (hfill : fillOpt S (S.dfa it.ty) q [] true = .ok (some a)) :
+    (S.dfa it.ty).accepts (S.types (fappend F a)) = true := by
+  obtain ⟨⟨s, q0, h1, h2, h3⟩, _⟩ := hl
+  unfold cohStart at h1
+  rw [if_neg (by omega)] at h1
+  simp only [Option.some.injEq] at h1
+  subst h1
+  unfold cohKids at h3
+  rw [if_neg (by omega)] at h3
+  rw [hq] at h2
+  simp only [Option.some.injEq] at h2
+  subst h2
+  have htys := fillBeforeNodes_types S _ _ _ _ a (liftRaise_ok hfill)
+  obtain ⟨_, q1, hrun, hfin⟩ := fillBeforeTypes_sound S (S.dfa it.ty) (hdet it.ty) q [] true _ htys
+  have hend : (S.dfa it.ty).validEnd q1 = true := by simpa [fillFinished, Dfa.run] using hfin
+  have : (S.dfa it.ty).run 0 (S.types (fappend F a)) = some q1 := by
+    apply run_fappend_some hts
+    rw [Dfa.run_append, h3]
+    exact hrun
+  unfold Dfa.accepts
+  rw [this]
+  exact hend
+
+/-- the marks `place_nodes` leaves on a node are allowed by the frontier node's type … -/
+theorem allowsMarks_allowedMarks (nt : NodeType) (ms : Marks) : nt.allowsMarks (nt.allowedMarks ms) = true := by
+  simp only [NodeType.allowsMarks, NodeType.allowedMarks, List.all_eq_true, List.mem_filter]
+  intro m hm
+  exact hm.2
+
+theorem canonicalMarks_allowedMarks (S : Schema) (nt : NodeType) (ms : Marks) (h : canonicalMarks S ms = true) :
+    canonicalMarks S (nt.allowedMarks ms) = true := by
+  rw [canonicalMarks_iff_canonP] at h ⊢
+  exact h.sublist List.filter_sublist
+
+/-- … and a valid node stays valid under that filtering -/
+theorem checkNode_withMarks_allowed (S : Schema) (nt : NodeType) (n : Node) (h : S.checkNode n = true) :
+    S.checkNode (n.withMarks (nt.allowedMarks n.marks)) = true := by
+  cases n with
+  | text s m =>
+    simp only [checkNode_text, Node.withMarks, Node.marks] at h ⊢
+    exact canonicalMarks_allowedMarks S nt m h
+  | leaf t a m =>
+    simp only [checkNode_leaf, Node.withMarks, Node.marks, Bool.and_eq_true] at h ⊢
+    exact ⟨canonicalMarks_allowedMarks S nt m h.1, h.2⟩
+  | elem t a m k =>
+    simp only [checkNode_elem, Node.withMarks, Node.marks, Bool.and_eq_true] at h ⊢
+    exact ⟨⟨h.1.1, canonicalMarks_allowedMarks S nt m h.1.2⟩, h.2⟩
 
 end PM
